@@ -206,3 +206,36 @@ func VerifC05BroadcastHeld() {
 	w.checkEvents(got, 0, s, "/r/")
 	zzverif.Cover("done")
 }
+
+// VerifC05CatchUp: the replay of a cached backlog into a watch's result channel (the real
+// catchUpEvents on a channel of the real capacity), for backlog sizes around every boundary of
+// its batching arithmetic (0, 1, one batch +-1, the channel's capacity in full batches +-1 and
+// +-100, odd sizes beyond it, up to 40000 events): every event is handed over exactly once, in
+// order, in non-empty batches, and the call never blocks on a full channel.
+func VerifC05CatchUp() {
+	sizes := []int{0, 1, eventBatchSize - 1, eventBatchSize, eventBatchSize + 1, 2*eventBatchSize - 1,
+		resultChanLength*eventBatchSize - 1, resultChanLength * eventBatchSize, resultChanLength*eventBatchSize + 1,
+		resultChanLength*eventBatchSize + 99, resultChanLength*eventBatchSize + 100, 34157, 39999}
+	n := sizes[zzverif.Choose("backlog", len(sizes))]
+	events := make([]*proto.Event, n)
+	for i := range events {
+		events[i] = &proto.Event{Revision: uint64(i + 1)}
+	}
+	out := make(chan []*proto.Event, resultChanLength)
+	b := &backend{}
+	b.catchUpEvents(out, events) // (a call that blocks for ever is reported as a deadlock)
+	next := uint64(1)
+	for len(out) > 0 {
+		batch := <-out
+		zzverif.Assert(len(batch) > 0 || n == 0, "catch-up: no empty batch")
+		for _, e := range batch {
+			zzverif.Assert(e.Revision == next, "catch-up: every cached event once, in order")
+			next++
+		}
+	}
+	zzverif.Assert(next == uint64(n)+1, "catch-up: the whole backlog is handed over")
+	if n > resultChanLength*eventBatchSize {
+		zzverif.Cover("backlog-beyond-full-batches")
+	}
+	zzverif.Cover("done")
+}
